@@ -13,7 +13,7 @@ def run(ctx):
             return
     ctx.assumptions += [
         "'the process keeps serving' is observed (the generated server's runner survives every case and answers the next one), not proved",
-        "panics are modelled at user-code call sites (resolver, schema directive); a recover at every goroutine boundary of the generated code is a regenerated fact (Gen/GoBoundaries)",
+        "panics are modelled at user-code call sites (resolver, schema directive, field interceptor = outermost wrapper `~around`, model methods); a recover at every goroutine boundary of the generated code is a regenerated fact (Gen/GoBoundaries)",
         "gqlparser parse+validate modelled-not-verified; scheduling abstracted (C06)",
     ]
     cfgs0 = ["base", "wl1", "wl2", "follow_funcsyn_wl2"] if ctx.tier == "quick" else ["base", "wl1", "wl2", "follow_funcsyn_wl2", "noptr", "funcsyn"]
@@ -83,7 +83,7 @@ def run(ctx):
                 # the stream could not be created: a request error, judged by C01
                 continue
             if r.get("fault"):
-                tags.add("single-fault:" + r["faultKind"] + (":directive" if "@" in r["fault"] else ":resolver"))
+                tags.add("single-fault:" + r["faultKind"] + (":interceptor" if r["fault"].endswith("@~around") else ":directive" if "@" in r["fault"] else ":resolver"))
             if r["recovers"]:
                 tags.add("recovered-panic")
             for t in tags:
